@@ -232,8 +232,8 @@ type c04Cfg struct {
 	dead      int
 	proto     *cidlink.LinkPrototype
 	hashName  string
-	padHead   int // exact encoded size of the newest advertisement (0 = natural)
-	asyncMax  int // MaxAsyncConcurrency (0 = unlimited)
+	padHead   int   // exact encoded size of the newest advertisement (0 = natural)
+	asyncMax  int   // MaxAsyncConcurrency (0 = unlimited)
 	adsDepth  int64 // AdsDepthLimit (0 = unlimited)
 }
 
